@@ -192,7 +192,7 @@ theorem paneStruct_good (E : Ext) (info : PaneInfo) {ts cs} (h : GoodFs ts cs)
       rw [hf] at hfill
       simp only [h3, hf, hc, ← hfill, h4, h5, Option.isSome_some, Bool.not_true, Bool.or_false,
         Bool.false_eq_true, if_false, makeUncheckedKw, ← hcalled]
-      cases hh : runHook E info all with
+      cases hh : runHook E info all (vals.map (·.1)) with
       | ok final =>
         exact .inl ⟨mkObj info final (vals.map (·.1)), by simp only [guardTry_ok], by simp only [guardCol_ok]⟩
       | error e =>
